@@ -51,10 +51,15 @@ theorem segment_has_no_slash (k v : Str) (hk : isLegacyLabelName k = true) :
     '/' ∉ (escapeGroupingKey k v).1 ∧ '/' ∉ (escapeGroupingKey k v).2 :=
   Gateway.escape_no_slash k v (Gateway.legacy_name_facts hk).1
 
+/-- neither component is empty (an empty segment would be cleaned out of the path): the empty value is `=` -/
+theorem segment_nonempty (k v : Str) (hk : isLegacyLabelName k = true) :
+    (escapeGroupingKey k v).1 ≠ [] ∧ (escapeGroupingKey k v).2 ≠ [] :=
+  Gateway.escape_ne_nil k v (Gateway.legacy_name_facts hk).2.2
+
 /-- the Pushgateway reads an escaped pair back as the original pair: empty value, value with `/`, any other -/
 theorem pair_decodes (k v : Str) (hk : isLegacyLabelName k = true) :
     decodePair (escapeGroupingKey k v).1 (escapeGroupingKey k v).2 = some (k, v) :=
-  Gateway.decodePair_escape k v (Gateway.legacy_name_facts hk).2
+  Gateway.decodePair_escape k v (Gateway.legacy_name_facts hk).2.1 (Gateway.legacy_name_facts hk).2.2
 
 /-! ### `sorted(grouping_key.items())` -/
 
@@ -68,7 +73,7 @@ theorem sorted_is_sorted_permutation (gk : List (Str × Str)) :
 theorem job_is_legacy : isLegacyLabelName jobLit = true := by decide
 
 private theorem names_ok (job : Str) (gk : List (Str × Str)) (h : LegacyNames gk) :
-    ∀ x ∈ (jobLit, job) :: sortByKey gk, '/' ∉ x.1 ∧ '@' ∉ x.1 := by
+    ∀ x ∈ (jobLit, job) :: sortByKey gk, '/' ∉ x.1 ∧ '@' ∉ x.1 ∧ x.1 ≠ [] := by
   intro x hx
   rcases List.mem_cons.mp hx with rfl | hx
   · exact Gateway.legacy_name_facts job_is_legacy
